@@ -21,7 +21,7 @@ man = {
   'add_only': True,
  },
  'engines': [{'name': 'simrt+dst', 'path': 'sim/ tools/dst', 'serves_properties': sorted(checks),
-              'kind_free_text': 'deterministic simulation: seeded scheduler over parked OS threads with a scheduling point at every instrumented memory access, simulated clock, simulated streams/files/kernel, fault injection, history oracles, shrink + replay'}],
+              'kind_free_text': 'deterministic simulation: seeded scheduler over parked OS threads with a scheduling point at every instrumented memory access, simulated clock, simulated streams/files/kernel, fault injection, history oracles, ddmin over the operation/fault plan and over the recorded schedule, replay by seed and by minimised schedule'}],
  'checks': [], 'not_applicable': [],
  'notes': 'All claimed properties are decided by seeded search over schedules x fault plans x workloads (level: exploration). See DESIGN.md.',
 }
